@@ -582,3 +582,38 @@ func c03HandsBody(c *run.Ctx) {
 func TestC03Hands(t *testing.T) {
 	run.Property(t, "C03", "c03h", c03hStats, run.Scale(10, 100), c03HandsBody)
 }
+
+// TestC03Pinned keeps the recorded finding demonstrated (UpdateTablePlayers applies
+// the leave part before a failing join part).
+var c03pStats = ev.New("C03", "c03p")
+
+func TestC03Pinned(t *testing.T) {
+	defer c03pStats.Write()
+	const sig = "C03.error-changed-table.err_mixed_batch"
+	if run.IsKnown("C03", sig) == nil {
+		return
+	}
+	c := &run.Ctx{Prop: "C03", Check: "c03p", TB: t, St: c03pStats}
+	c.Ch = choose.NewRecorder(choose.NewScriptChooser(nil))
+	func() {
+		defer func() {
+			if r := recover(); r != nil && fmt.Sprint(r) != "{}" {
+				panic(r)
+			}
+		}()
+		cfg := sim.Config{Seats: 4, Rule: pokertable.CompetitionRule_Default, Mode: pokertable.CompetitionMode_CT, MinPlayers: 2, Blind: pokertable.TableBlindState{Level: 1, SB: 5, BB: 10},
+			Players: []sim.PlayerSpec{{ID: "p00", Seat: 3, Chips: 100}, {ID: "p01", Seat: 2, Chips: 100}, {ID: "p02", Seat: 1, Chips: 100}, {ID: "p03", Seat: 0, Chips: 100}}}
+		s := sim.New(c.Ch, cfg, sim.Hooks{})
+		defer s.Finish()
+		if s.CreateErr != nil {
+			return
+		}
+		op := s.Update([]pokertable.JoinPlayer{{PlayerID: "p04", RedeemChips: 100, Seat: 0}}, []string{"p00"}, "err_mixed_batch")
+		if op.Err != nil && normTableJSON(op.Before) != normTableJSON(op.After) {
+			c.Failf(sig, "%s reported an error but the table changed:\nbefore %s\nafter  %s", op.String(), tableSummary(op.Before), tableSummary(op.After))
+		}
+	}()
+	c03pStats.Case([]string{"pinned"}, true, "pinned-c03", func() interface{} {
+		return "UpdateTablePlayers(join p04 at the taken seat 0, leave p00) on a full 4-seat table"
+	})
+}
